@@ -56,7 +56,7 @@ def effectTable : List FnRow := [
   ⟨[], []⟩,  -- 42 astral.location.Location.latitude
   ⟨[.mutatesParam], [7]⟩,  -- 43 astral.location.Location.latitude.setter  (store through self)
   ⟨[], []⟩,  -- 44 astral.location.Location.longitude
-  ⟨[.mutatesParam], []⟩,  -- 45 astral.location.Location.longitude.setter  (store through self)
+  ⟨[.mutatesParam], [7]⟩,  -- 45 astral.location.Location.longitude.setter  (store through self)
   ⟨[], [42, 44, 67, 69, 71, 118]⟩,  -- 46 astral.location.Location.midnight
   ⟨[], [69, 87]⟩,  -- 47 astral.location.Location.moon_phase
   ⟨[], [42, 44, 67, 69, 71, 85]⟩,  -- 48 astral.location.Location.moonrise
